@@ -123,6 +123,16 @@ pub fn analyse(evs: &[Ev], meta: &Meta) -> Analysis {
       }
     }
   }
+  // Handles cloned from a parent whose own close() had already been invoked are outside the
+  // statement (a closed handle "rejects further operations"; what a clone of it is, is not
+  // specified): they never count as a live handle of their side.
+  for e in evs.iter().filter(|e| e.form == Form::Clone && e.out == Out::Ok) {
+    let map = if e.side == Side::Tx { &mut tx_life } else { &mut rx_life };
+    let parent_closed = map.get(&e.handle).and_then(|l| l.closed_call).map(|c| c < e.ret).unwrap_or(false);
+    if parent_closed {
+      map.remove(&(e.aux as u32));
+    }
+  }
   // The moment from which "every sender is gone" can first be true: not before the last
   // sender handle's close/drop was invoked. `None` = some handle never went away.
   let last_gone_call = |m: &BTreeMap<u32, Life>| -> Option<u64> {
@@ -369,6 +379,15 @@ pub fn analyse(evs: &[Ev], meta: &Meta) -> Analysis {
         }
       } else if e.form.is_recv() && !e.vals.is_empty() {
         pts.push((e.call, -(e.vals.len() as i64), i));
+      } else if e.form.is_recv() && matches!(e.out, Out::Cancelled | Out::Open | Out::Panicked) {
+        // A receive that was abandoned (future dropped), never returned, or panicked may have
+        // been paired with / absorbed values all the same: whether those values are then lost
+        // is C01's business, the sender did find room. Count its full appetite.
+        let appetite = match e.form {
+          Form::RecvBatch | Form::RecvBatchMut | Form::TryRecvBatch | Form::TryRecvBatchMut => e.aux.max(1) as i64,
+          _ => 1,
+        };
+        pts.push((e.call, -appetite, i));
       }
     }
     pts.sort();
